@@ -4,5 +4,9 @@ package vsim
 
 const RaceEnabled = false
 
-func raceDisable() {}
-func raceEnable()  {}
+func raceDisable()          {}
+func raceEnable()           {}
+func raceReleaseToBarrier() {}
+
+// RaceBarrier is a no-op without the race detector.
+func RaceBarrier() {}
